@@ -258,6 +258,23 @@ def run(ctx):
     if d1.violated != 'InversionSound':
         raise core.MachineryFailure('the model with deviation D1 should violate InversionSound, got %s' % d1.violated)
     ctx.cov['negative_controls_rejected'] += 1
+    # 1b. the interval algebra for ALL integers.  IntervalOps.tla is the algebra of LineFilter.tla without the
+    # sentinel for "no limit"; TLC checks that the two are the same operators on a bounded domain (every pair of
+    # interval pairs), Apalache proves the induction steps of IntervalSound / InversionSound for every integer
+    # operand and line number (IntervalLemmas.tla), and must refute the step for the combination as coded before
+    # the repair of D1.  An obligation Apalache cannot decide in its time limit is reported, not assumed.
+    ctx.tlc('IntervalOpsEq', 'CONSTANT Lim <- %s\nINIT Init\nNEXT Next\n' % ('LimQuick' if quick else 'LimDefault'),
+            workers=1, name='typed-operators-equal', count=False, timeout=3000)
+    from concurrent.futures import ThreadPoolExecutor
+    from harness import tlc as tlc_mod
+    # one Apalache process per lemma, side by side with the rest of the check (collected at the end)
+    jobs = [(l, 'InitAny', 'NoError') for l in ('LeafLemma', 'NaturalLemma', 'CombineLemmaI', 'CombineLemmaL', 'AdaptLemma')]
+    jobs.append(('D1Refuted', 'InitAny', 'Error'))
+    if not quick:
+        jobs += [('NegLemmaL', 'InitAny', 'NoError'), ('ClosedLemma', 'Init', 'NoError')]
+    apa_pool = ThreadPoolExecutor(len(jobs))
+    apa = [(inv, want, apa_pool.submit(tlc_mod.apalache, 'IntervalLemmas', ctx.scratch, inv, init=init, length=0,
+                                       timeout=600 if quick else 2400)) for inv, init, want in jobs]
     # 2. spec -> code: every expression (smaller operand set for the export: every shape, fewer operand values)
     eks = [1, 2, 4] if quick else [0, 1, 2, 4, 5]
     et, en = (5, 2) if quick else (5, 3)
@@ -288,6 +305,21 @@ def run(ctx):
     deep = {json.dumps(c['e']): c for c in sim.printed_json('CASE')}
     ditems = expr_items(list(deep.values()))
     check_items(ctx, ditems, n, 'deep expressions (TLC -simulate)')
+    unbounded = []
+    for inv, want, fut in apa:
+        r = fut.result()
+        r['expected'] = want
+        r['discharged'] = r['outcome'] == want
+        unbounded.append({k: v for k, v in r.items() if k != 'excerpt'})
+        if r['outcome'] in ('NoError', 'Error') and r['outcome'] != want:
+            raise core.MachineryFailure('Apalache: %s of IntervalLemmas.tla: %s, expected %s (model level)'
+                                        % (inv, r['outcome'], want))
+        if r['outcome'] == 'failed':
+            raise core.MachineryFailure('Apalache failed on IntervalLemmas.tla (%s):\n%s' % (inv, r.get('excerpt')))
+        if r['discharged'] and want == 'Error':
+            ctx.cov['negative_controls_rejected'] += 1
+    apa_pool.shutdown()
+    ctx.cov['unbounded_obligations'] = unbounded
     # negative controls on the comparison
     rnd = random.Random(ctx.seed + 3)
     tried = rejected = 0
